@@ -77,7 +77,10 @@ static inline int remove_node(m_bst_t *l, bst_node **elem) {
          * (smallest in the right subtree)
          */
         bst_node **tmp = find_min_subtree(&node->right);
-        node->userptr = (*tmp)->userptr; // switch userdata
+        /* swap userdata, so that the element being removed is the one destroyed with the spliced node */
+        void *removed_data = node->userptr;
+        node->userptr = (*tmp)->userptr;
+        (*tmp)->userptr = removed_data;
         return remove_node(l, tmp); // remove useless left-most node in the right subtree
     }
     return -ENOENT;
